@@ -6,6 +6,7 @@ package c18
 import (
 	"fmt"
 	"net/http"
+	"net/http/httptest"
 	"strings"
 
 	"verifharness/kit"
@@ -40,10 +41,18 @@ type jwtEnv struct {
 	shape string // alg/signer/prev configuration, for signatures
 	t     tally
 	cbHit *int // unauthorized-callback counter (nil if none installed)
+	// end-to-end mode: exec sends the request to a real rest.Server (nil = in-process through mw)
+	exec func(req *http.Request, p *probe) (status int, panicked string, err error)
+	kp   string // key prefix: "C18/jwt" or "C18/e2e/jwt"
+	path string // request path ("/protected" when empty)
 }
 
 func (e *jwtEnv) buildReq(s jwtSpec) *http.Request {
-	target := "http://verif.local/protected"
+	path := e.path
+	if path == "" {
+		path = "/protected"
+	}
+	target := "http://verif.local" + path
 	if s.Query != "" {
 		target += "?" + s.Query
 	}
@@ -80,6 +89,14 @@ func (e *jwtEnv) witness(s jwtSpec, rv reqVerdict, status int, ran bool, extra s
 func (e *jwtEnv) run(s jwtSpec) bool {
 	c := e.c
 	req := e.buildReq(s)
+	if e.exec != nil {
+		// on the wire net/http trims leading/trailing blanks of header values: judge what arrives
+		for k, vs := range req.Header {
+			for i, v := range vs {
+				req.Header[k][i] = strings.Trim(v, " \t")
+			}
+		}
+	}
 	rv := refVerifyJWTRequest(req, e.cfg, e.now)
 	if s.Form != "" {
 		for _, kv := range strings.Split(s.Form, "&") {
@@ -92,26 +109,49 @@ func (e *jwtEnv) run(s jwtSpec) bool {
 		}
 	}
 	p := &probe{resp: []byte("handler-output")}
-	rec, pan := serve(e.mw(protected(p)), req)
+	kp := e.kp
+	if kp == "" {
+		kp = "C18/jwt"
+	}
+	var code int
+	var pan string
+	if e.exec != nil {
+		var err error
+		code, pan, err = e.exec(req, p)
+		if err != nil {
+			// the client could not deliver this request (e.g. a header value net/http refuses to send)
+			e.t["e2e_jwt_requests_not_deliverable"]++
+			return false
+		}
+		if !p.ran() && code >= 500 {
+			c.Inconclusive(fmt.Sprintf("e2e jwt request answered %d by the server infrastructure: %s", code, clip(pan, 200)))
+			return false
+		}
+	} else {
+		var rr *httptest.ResponseRecorder
+		rr, pan = serve(e.mw(protected(p)), req)
+		code = rr.Code
+	}
+	rec := struct{ Code int }{code}
 	ran := p.ran()
 	c.Evals(1)
 	e.t["jwt_requests"]++
 	e.t["jwt_kind_"+strings.SplitN(s.Kind, "/", 2)[0]]++
-	c.Sig(s.Kind != "base", "jwt", s.Kind, s.Detail, e.shape, ran)
+	c.Sig(s.Kind != "base", kp, s.Kind, s.Detail, e.shape, ran)
 	if pan != "" {
-		c.Viol("C18/panic/jwt/"+s.Kind, "handler.Authorize panicked", e.witness(s, rv, rec.Code, ran, pan))
+		viol(c, "C18/panic/"+kp[4:]+"/"+s.Kind, "handler.Authorize panicked", e.witness(s, rv, rec.Code, ran, pan))
 		return ran
 	}
 	switch {
 	case ran && !rv.allowedRun:
-		c.Viol("C18/jwt/ran-without-valid-token/"+s.Kind,
+		viol(c, kp+"/ran-without-valid-token/"+s.Kind,
 			"the protected handler ran although no token carried by the request verifies (reference: "+strings.Join(rv.reasons, ",")+")",
 			e.witness(s, rv, rec.Code, ran, ""))
 	case !ran && rec.Code != http.StatusUnauthorized:
-		c.Viol("C18/jwt/rejected-not-401/"+s.Kind, fmt.Sprintf("request rejected with status %d instead of 401", rec.Code),
+		viol(c, kp+"/rejected-not-401/"+s.Kind, fmt.Sprintf("request rejected with status %d instead of 401", rec.Code),
 			e.witness(s, rv, rec.Code, ran, ""))
 	case !ran && s.Must && rv.canonical:
-		c.Viol("C18/jwt/valid-rejected/"+s.Kind, fmt.Sprintf("a valid token in canonical form was rejected (status %d)", rec.Code),
+		viol(c, kp+"/valid-rejected/"+s.Kind, fmt.Sprintf("a valid token in canonical form was rejected (status %d)", rec.Code),
 			e.witness(s, rv, rec.Code, ran, ""))
 	}
 	if ran {
@@ -120,7 +160,7 @@ func (e *jwtEnv) run(s jwtSpec) bool {
 			e.t["jwt_ran_noncanonical_valid"]++
 		}
 		if p.runs != 1 {
-			c.Viol("C18/jwt/handler-ran-twice/"+s.Kind, fmt.Sprintf("handler ran %d times for one request", p.runs), e.witness(s, rv, rec.Code, ran, ""))
+			viol(c, kp+"/handler-ran-twice/"+s.Kind, fmt.Sprintf("handler ran %d times for one request", p.runs), e.witness(s, rv, rec.Code, ran, ""))
 		}
 	} else {
 		e.t["jwt_rejected_401"]++
@@ -132,6 +172,13 @@ func (e *jwtEnv) run(s jwtSpec) bool {
 		e.checkClaims(s, rv, p, rec.Code)
 	}
 	return ran
+}
+
+func (e *jwtEnv) kpfx() string {
+	if e.kp == "" {
+		return "C18/jwt"
+	}
+	return e.kp
 }
 
 func valueClass(v any) string {
@@ -162,7 +209,7 @@ func (e *jwtEnv) checkClaims(s jwtSpec, rv reqVerdict, p *probe, status int) {
 		if stdClaims[k] {
 			e.t["jwt_standard_claims_checked"]++
 			if got != nil {
-				c.Viol("C18/jwt/standard-claim-visible/"+k, fmt.Sprintf("standard claim %q is visible to the handler as %#v", k, got),
+				viol(c, e.kpfx()+"/standard-claim-visible/"+k, fmt.Sprintf("standard claim %q is visible to the handler as %#v", k, got),
 					e.witness(s, rv, status, true, ""))
 			}
 			continue
@@ -170,14 +217,14 @@ func (e *jwtEnv) checkClaims(s jwtSpec, rv reqVerdict, p *probe, status int) {
 		e.t["jwt_claims_compared"]++
 		gn, err := normJSON(got)
 		if err != nil || !jsonEqual(want, gn) {
-			c.Viol("C18/jwt/claim-mismatch/"+valueClass(want), fmt.Sprintf("claim %q: token carries %s, handler sees %#v", k, mustJSON(want), got),
+			viol(c, e.kpfx()+"/claim-mismatch/"+valueClass(want), fmt.Sprintf("claim %q: token carries %s, handler sees %#v", k, mustJSON(want), got),
 				e.witness(s, rv, status, true, ""))
 		}
 	}
 	// a key that is not in the token must not appear
 	for _, k := range []string{"verif-absent", "admin", "uid2"} {
 		if _, in := rv.tok.claims[k]; !in && p.ctxVals(k) != nil {
-			c.Viol("C18/jwt/phantom-claim", fmt.Sprintf("ctx.Value(%q) = %#v although the token has no such claim", k, p.ctxVals(k)),
+			viol(c, e.kpfx()+"/phantom-claim", fmt.Sprintf("ctx.Value(%q) = %#v although the token has no such claim", k, p.ctxVals(k)),
 				e.witness(s, rv, status, true, ""))
 		}
 	}
